@@ -16,6 +16,10 @@ pub fn judge_one(ctx: &mut Ctx, rd: &Rendered, sp: &Sp, cfg: &Cfg, step: u8, gen
         ctx.skip("tag recognition in dispute on this rendering (KF-C08)");
         return;
     }
+    if (gen_name == "replay" && !judge::spans_subset(rd, sp)) || (gen_name != "replay" && !judge::spans_consistent(rd, sp)) {
+        ctx.skip("delimiter characters occur outside tags under this spelling (generator self-check)");
+        return;
+    }
     // premise: every tag alone on its line
     if !rd.elems.iter().all(|e| tag_alone(&rd.text, e.open) && tag_alone(&rd.text, e.close)) {
         ctx.skip("not a block document (a tag shares its line)");
@@ -143,6 +147,36 @@ pub fn run(ctx: &mut Ctx) {
             }
         }
         ctx.note("seam_layouts_per_pass", json!(SeamParams::count()));
+        // ---- seam layouts outside the exhaustive box (b, a up to 12, indent up to 6 units, wide units)
+        let total = 20_000 * scale;
+        for i in (shard..total).step_by(n as usize) {
+            if ctx.past(0.68) {
+                break;
+            }
+            let mut r = Rng::for_case(seed, 74, i);
+            let p = seam_params_wide(&mut r, true);
+            let unit = if i % 4 == 0 { *r.pick(&WIDE_UNITS) } else { *r.pick(&UNITS) };
+            let sp = default_sp();
+            // neighbour lines now and then consist of characters that look like blanks but are not
+            let mut words: Vec<&'static str> = WORDS.to_vec();
+            words.extend(["\u{a0}", "\x0c", "\u{3000}", "\x0b \u{a0}", "\u{200b}"]);
+            r.shuffle(&mut words);
+            let d = seam_doc(&p, unit, &words);
+            let rd = render(&d, &sp);
+            judge_one(ctx, &rd, &sp, &cfg, STEP, "seam-wide");
+        }
+        // ---- big block documents without unwrap-blocks
+        let total = 40 * scale;
+        for i in (shard..total).step_by(n as usize) {
+            if ctx.past(0.74) {
+                break;
+            }
+            let mut r = Rng::for_case(seed, 75, i);
+            let sp = default_sp();
+            let d = gen_big_doc(&mut r, &sp, false, false);
+            let rd = render(&d, &sp);
+            judge_one(ctx, &rd, &sp, &cfg, STEP, "ast-big");
+        }
         // ---- bounded-exhaustive line sequences without unwrap-blocks
         super::docs::lineseq_stage(ctx, if quick { 6 } else { 8 }, 0.8, false, |ctx, rd, sp| {
             judge_one(ctx, rd, sp, &step_cfg(STEP), STEP, "lineseq");
@@ -187,6 +221,19 @@ pub fn run(ctx: &mut Ctx) {
         judge_one(ctx, &rd, &sp, &cfg, STEP, "unwrap-layouts");
     }
     ctx.note("unwrap_layout_skeletons", json!(UnwrapParams::count()));
+    // ---- big documents: wide indentation, long bodies, deep nesting
+    let total = 50 * scale;
+    for i in (shard..total).step_by(n as usize) {
+        if ctx.past(0.7) {
+            break;
+        }
+        let mut r = Rng::for_case(seed, 76, i);
+        let sp = default_sp();
+        let mut d = gen_big_doc(&mut r, &sp, false, true);
+        demote_default_outside_unwrap(&mut d, false);
+        let rd = render(&d, &sp);
+        judge_one(ctx, &rd, &sp, &cfg, STEP, "ast-big");
+    }
     // ---- bounded-exhaustive line sequences (unwrap-blocks with every kind of line around / inside)
     super::docs::lineseq_stage(ctx, if quick { 6 } else { 8 }, 0.8, true, |ctx, rd, sp| {
         judge_one(ctx, rd, sp, &step_cfg(STEP), STEP, "lineseq");
